@@ -322,7 +322,10 @@ HTaskFinished(W, S, t, B) ==
         cev == CancelEvents(S5, n.cancelled)
         lastTm == IF cev = <<>> THEN S.now ELSE cev[Len(cev)].tm
         rev == ReleaseEvents(S5, n.released \o newRel, lastTm)
-    IN  [S |-> QAddAll(S5, gev \o cev \o rev), err |-> n.err]
+        \* a completed closed-loop invocation is replaced by at most one new one; nothing else materialises graphs here
+        tooMany == Len(B.newg) > (IF gdone2 /\ S.gr[g].closed THEN 1 ELSE 0)
+    IN  [S |-> QAddAll(S5, gev \o cev \o rev),
+         err |-> IF n.err # "" THEN n.err ELSE IF tooMany THEN "closed_loop_more_graphs_than_notifications" ELSE ""]
 
 (* TASK_PLACEMENT.  B.fuzz = remaining time after Task.start's fuzz (bound from the  *)
 (* log; must lie within the variance range).                                          *)
@@ -364,7 +367,8 @@ ApplySkip(W, S, d, drop) ==       \* returns [S, evs, err]
     THEN LET r == GraphCancel(S, t, S.now)
              S1 == r[1]
              cev == CancelEvents(S1, r[2])
-         IN  [S |-> S1, evs |-> cev, err |-> r[3], cl |-> GCancelled(S1, g) /\ S.gr[g].closed]
+             \* the Workload is notified (closed loop: next invocation) only by the request that cancels the graph
+         IN  [S |-> S1, evs |-> cev, err |-> r[3], cl |-> GCancelled(S1, g) /\ ~GCancelled(S, g) /\ S.gr[g].closed]
     ELSE IF FutOf(S, t) # 0
          THEN IF ~HasFutEvent(S, t) THEN [S |-> S, evs |-> <<>>, err |-> "future_event_missing", cl |-> FALSE]
               ELSE IF S.ts[t].st # SCHEDULED THEN [S |-> S, evs |-> <<>>, err |-> "unschedule_bad_state", cl |-> FALSE]
@@ -472,6 +476,7 @@ HSchedFinished(W, S, B) ==
     ELSE
     LET r == ApplyDecs(W, S, S.pd.decs, <<>>, "", 0) IN
     IF r.err # "" THEN Err(r.S, r.err)
+    ELSE IF Len(B.newg) > r.ncl THEN Err(r.S, "closed_loop_more_graphs_than_notifications")
     ELSE
     LET S1 == r.S
         \* tasks of graphs created by closed-loop notifications on cancellation
@@ -490,14 +495,16 @@ HSchedStart(W, S, B) ==
     Ok(QAdd([S EXCEPT !.sch.last = S.now, !.sch.next = -1, !.sch.pend = 1, !.pd = B.decs],
             Ev(E_SCHED_FIN, S.now + B.decs.rt, 0, 0, NoPlan)))
 
-(* UPDATE_WORKLOAD: B.newg = graphs handed over by the loader (empty: no update).    *)
-(* The caller has already appended their tasks to the state.                          *)
+(* UPDATE_WORKLOAD: B.upd = the loader handed over a Workload (FALSE: it answered None, no further update is         *)
+(* queued); B.newg = the task graphs of that Workload the simulator has not announced yet (possibly none), appended    *)
+(* to the workload in that order.  Only they are announced and released: the graphs of earlier updates already have   *)
+(* their events.  The caller has already appended the tasks of B.newg to the state.                                   *)
 HUpdateWorkload(W, S, B) ==
-    IF B.newg = <<>> THEN Ok(S)
+    IF ~B.upd THEN Ok(S)
     ELSE
-    LET S1 == [S EXCEPT !.wl = B.newg]
-        rel == Flatten([i \in 1..Len(S1.wl) |-> Releasable(S1, S1.wl[i])])
-        gev == [i \in 1..Len(S1.wl) |-> Ev(E_GRELEASE, GRelease(S1, S1.wl[i]), 0, S1.wl[i], NoPlan)]
+    LET S1 == [S EXCEPT !.wl = @ \o B.newg]
+        rel == Flatten([i \in 1..Len(B.newg) |-> Releasable(S1, B.newg[i])])
+        gev == [i \in 1..Len(B.newg) |-> Ev(E_GRELEASE, GRelease(S1, B.newg[i]), 0, B.newg[i], NoPlan)]
         rev == [i \in 1..Len(rel) |-> Ev(E_RELEASE, S1.ts[rel[i]].rel, rel[i], 0, NoPlan)]
         maxRel == SeqMax([i \in 1..Len(rel) |-> S1.ts[rel[i]].rel], S.now)
         nxt == IF W.fl.update_interval = -1 THEN Max2(maxRel, S.now) + 1 ELSE S.now + W.fl.update_interval
@@ -630,6 +637,16 @@ C06_CancelClosure(S) == \A t \in 1..NT(S) : Starved(S, t) => S.ts[t].st = CANCEL
 C07_OneBranch(S) ==
     \A t \in 1..NT(S) : (S.tk[t].cond /\ S.ts[t].st = COMPLETED) =>
         Cardinality({i \in 1..Len(Children(S, t)) : S.ts[Children(S, t)[i]].st \in {RELEASED, SCHEDULED, RUNNING, COMPLETED}}) <= 1
+\* C07: with conditionals resolved at submission the branch that runs is the one fixed when the graph was created
+\* (tk[c].p0 = probability at creation, millionths): no child of a conditional other than the resolved one is ever
+\* released, running or completed (a policy that plans ahead may hold an unresolved child SCHEDULED until the
+\* conditional completes and cancels it)
+C07_ResolvedAtSubmission(W, S) ==
+    W.fl.resolve_conditionals =>
+        \A t \in 1..NT(S) : S.tk[t].cond =>
+            \A i \in 1..Len(Children(S, t)) :
+                LET c == Children(S, t)[i] IN
+                S.ts[c].st \in {RELEASED, RUNNING, COMPLETED} => S.tk[c].p0 = 1000000
 \* legal lifecycle edges (C06)
 LegalEdge(a, b) ==
     \/ a = b
@@ -791,9 +808,9 @@ RowsOf(W, S0, e, B, S2) ==
     LET now == S0.now  t == e.t IN
     CASE e.ty = E_START -> <<Row("SIMULATOR_START", <<now>>, <<>>)>>
       [] e.ty = E_UPDATE ->
-            IF B.newg = <<>> THEN <<Row("UPDATE_WORKLOAD", <<now, 0, 0>>, <<>>)>>
+            IF ~B.upd THEN <<Row("UPDATE_WORKLOAD", <<now, 0, 0>>, <<>>)>>
             ELSE <<Row("UPDATE_WORKLOAD",
-                       <<now, Len(S2.wl), Len(Flatten([i \in 1..Len(S2.wl) |-> Releasable([S0 EXCEPT !.wl = B.newg], S2.wl[i])]))>>, <<>>)>>
+                       <<now, Len(S2.wl), Len(Flatten([i \in 1..Len(B.newg) |-> Releasable(S0, B.newg[i])]))>>, <<>>)>>
       [] e.ty = E_GRELEASE ->
             <<Row("TASK_GRAPH_RELEASE", <<e.tm, GRelease(S0, e.g), GDeadline(S0, e.g), e.g, Len(GTasks(S0, e.g)), S0.gr[e.g].cp>>, <<>>)>>
       [] e.ty = E_RELEASE ->
